@@ -284,6 +284,8 @@ pub struct Hub {
     pub vault_router: String,
     pub collector: String,
     pub distributor: String,
+    /// a second distributor instance deployed by a stranger, configured like the real one (see build)
+    pub rogue_distributor: String,
     pub lair: String,
     pub incentive_factory: String,
     pub helper: String,
@@ -605,6 +607,22 @@ impl Hub {
             "fee_distributor",
             adm,
         );
+        // a look-alike: a second fee distributor instance, deployed by a stranger, whose configuration names the
+        // hub's collector and lair exactly as the real one does; the collector is NOT configured with it
+        let rogue_distributor = must_instantiate(
+            &mut app,
+            codes.distributor,
+            USERS[0],
+            &fee_distributor::InstantiateMsg {
+                bonding_contract_addr: lair.clone(),
+                fee_collector_addr: collector.clone(),
+                grace_period: Uint64::new(2),
+                epoch_config: em::EpochConfig { duration: Uint64::new(DAY_NS), genesis_epoch: Uint64::new(GENESIS_TIME_NS) },
+                distribution_asset: native("uwhale"),
+            },
+            "fee_distributor_lookalike",
+            None,
+        );
         must_exec(
             &mut app,
             OWNER,
@@ -680,6 +698,7 @@ impl Hub {
             vault_router,
             collector,
             distributor,
+            rogue_distributor,
             lair,
             incentive_factory,
             helper,
@@ -718,6 +737,7 @@ impl Hub {
             vault_router: String::new(),
             collector: String::new(),
             distributor: String::new(),
+            rogue_distributor: String::new(),
             lair: String::new(),
             incentive_factory: String::new(),
             helper: String::new(),
